@@ -125,6 +125,22 @@ def run_shard(spec, tier, seed, budget_s):
                             ix.subjects = [(k_, ren.get((id(t), v), v) if k_ == 'col' else v) for k_, v in ix.subjects]
                         for c in t.columns:
                             c.name = ren.get((id(t), c.name), c.name)
+            if doc.enums and rng.random() < 0.25:
+                # name-sake document first: the same column type names, but no enum declares them (plain types);
+                # what a name meant in an earlier document must not matter for the next one
+                import copy
+                da = copy.deepcopy(doc)
+                for t in da.tables:
+                    for c in t.columns:
+                        if c.type.kind == 'enum':
+                            e = da.enums[c.type.enum]
+                            if am.__dict__['BARE_OK'](e.name) and am.__dict__['BARE_OK'](e.schema):
+                                c.type = am.ColType('plain', e.name) if e.schema == 'public' else am.ColType('dotted', f'{e.schema}.{e.name}')
+                            else:
+                                c.type = am.ColType('quoted', e.name)
+                da.enums = []
+                da.order = [(k_, i_) for k_, i_ in da.order if k_ != 'e']
+                check_doc(sh, da, f'{seed}-{i}-{k}-ns', label='random.namesake')
             exp = am.expected(doc)
             for s in range(nstyles):
                 check_doc(sh, doc, f'{seed}-{i}-{k}-{s}', expect=exp, label=label)
